@@ -315,6 +315,21 @@ type Options struct {
 	RaceBin string // race worker binary ("" if not built)
 	Workers int
 	Replay  string // path of a replay file, or ""
+	Alt     bool   // self-test against a scratch copy (VERIF_REPO): evidence and replays go under .bin/, never into /verif/evidence
+}
+
+func (o Options) evidenceDir() string {
+	if o.Alt {
+		return filepath.Join(o.Root, ".bin", "alt-evidence")
+	}
+	return filepath.Join(o.Root, "evidence")
+}
+
+func (o Options) replayDir() string {
+	if o.Alt {
+		return filepath.Join(o.Root, ".bin", "alt-replays")
+	}
+	return filepath.Join(o.Root, "replays")
 }
 
 func scratchBase() string {
@@ -365,7 +380,7 @@ func Run(o Options) int {
 
 	if o.Replay == "" {
 		// witnesses of earlier runs of the same (property, tier, seed) are stale
-		old, _ := filepath.Glob(filepath.Join(o.Root, "replays", fmt.Sprintf("%s-%s-%d-*.json", o.Prop, o.Tier, o.Seed)))
+		old, _ := filepath.Glob(filepath.Join(o.replayDir(), fmt.Sprintf("%s-%s-%d-*.json", o.Prop, o.Tier, o.Seed)))
 		for _, p := range old {
 			_ = os.Remove(p)
 		}
@@ -949,7 +964,7 @@ func finish(chk *Check, o Options, m *Merged, t0 time.Time, raceOwned, raceForei
 	var knownSeen []string
 	newViol := 0
 	exit := 0
-	replayDir := filepath.Join(o.Root, "replays")
+	replayDir := o.replayDir()
 	for _, sig := range order {
 		a := mine[sig]
 		var hit *Known
@@ -1017,9 +1032,9 @@ func finish(chk *Check, o Options, m *Merged, t0 time.Time, raceOwned, raceForei
 		"violations":  newViol,
 	}
 	if o.Replay == "" {
-		_ = os.MkdirAll(filepath.Join(o.Root, "evidence"), 0755)
+		_ = os.MkdirAll(o.evidenceDir(), 0755)
 		b, _ := json.MarshalIndent(evd, "", " ")
-		_ = os.WriteFile(filepath.Join(o.Root, "evidence", o.Prop+".json"), b, 0644)
+		_ = os.WriteFile(filepath.Join(o.evidenceDir(), o.Prop+".json"), b, 0644)
 	}
 
 	fmt.Printf("%s %s seed=%d: %d scenarios, %d distinct cells, %d inconclusive, %d new violation signature(s), %d known finding(s), %.1fs\n",
